@@ -222,3 +222,18 @@ void h_LoadBankFromMem(void)
     REACH(f != NULL, "accepted"); REACH(f == NULL, "rejected");
     REACH(f != NULL && f->version == 1, "v1"); REACH(f != NULL && f->version == 2 && f->banks_count_melodic == 2, "v2 two banks");
 }
+
+/* bounded stand-in: header bytes fixed to 1 melodic + 1 percussive bank, loops unwound (labelled bounded, never counted as proved) */
+void h_LoadBank_bounded_1_1(void)
+{
+    statics_ok();
+    size_t len = nondet_size(); __CPROVER_assume(len <= 20000);
+    uint8_t *m = xmalloc(len); int err = 12345;
+    __CPROVER_assume(len < 17 || (m[len >= 17 ? (m[10] == 0 && m[9] == 'K' ? 11 : 13) : 0] == 0));
+    /* declared counts: at most one bank each (bytes right after magic[/version]) */
+    if(len >= 18) { size_t o = (m[6] == 'B' && m[7] == '2') ? 13 : 11; __CPROVER_assume(m[o] == 0 && m[o + 1] <= 1 && m[o + 2] == 0 && m[o + 3] <= 1); }
+    WOPNFile *f = WOPN_LoadBankFromMem(m, len, &err);
+    if(f) { __CPROVER_assert(f->version <= 2 && f->banks_count_melodic == 1 && f->banks_count_percussion == 1, "BOUNDED accepted file is well formed"); }
+    else __CPROVER_assert(SPEC_IS_LOAD_ERROR(err), "BOUNDED rejected with a defined error code");
+    REACH(f != NULL && f->version == 2, "v2 accepted"); REACH(f != NULL && f->version == 1, "v1 accepted"); REACH(f == NULL && err == WOPN_ERR_UNEXPECTED_ENDING, "short");
+}
